@@ -31,7 +31,8 @@ CLAIMED = {
     "C04": e1("Cancellation fired by a separate task at a scheduler-chosen instant while 1-4 operations of the rpc are in flight (incl. sends parked in a stalled or "
             "back-pressured transport, closers waiting behind them). At global quiescence (exact: nothing is runnable, no timer pending) no client call of the "
             "cancelled rpc may still be in flight; calls blocked at the instant of cancel must report the context's own error (a quarter of the contexts end as an expired deadline); later calls fail (incl. a fresh MsgRecv and "
-            "MsgSend issued by the harness at quiescence on every cancelled, terminated client stream); the connection is closed or the probe rpc works; the peer handler is released once the cancel/disconnect has been consumed. Two genuine defects are listed as known findings.",
+            "MsgSend issued by the harness at quiescence on every cancelled, terminated client stream); the connection is closed or the probe rpc works; the peer handler is released once the cancel/disconnect has been consumed. 1-2 client tasks, all rpc shapes. Two genuine defects are listed as "
+            "known findings; D17b and D18 were found here by the thorough tier and repaired.",
             "DESIGN.md §8 C04", "deterministic simulation with exact blocked-forever census at quiescence; stall/back-pressure faults; both cancel modes"),
     "C05": e1("For every base program the fault-free twin run is executed, its transport calls are numbered per endpoint, and the k-th call of each endpoint is failed "
             "for every k in five ways (read error, read error attached to data, write error after a partial write, peer close, local close; fail-stop endpoint; errors are plain, "
@@ -66,15 +67,16 @@ CLAIMED = {
     "C13": e1("A byzantine man-in-the-middle rewrites bytes in flight inside live sessions: bit flips, garbage, well-formed hostile frames (any kind, control bit, stream "
             "ids 0/current±1/2^64-1, huge message ids), over-long varints, frames announcing up to 2^61 bytes followed by 400 KB floods, hostile error/metadata "
             "payloads, damage of genuine invoke-metadata packets, and one never-finished packet of 6x the reader maximum. Oracles: no task panics; the reader never offers the "
-            "transport a buffer beyond 4x maximum + 64 KiB; the flooded side ends its connection; hostile bytes leave no goroutine behind after teardown. The drpchttp entry "
+            "transport a buffer beyond 4x maximum + 64 KiB; the flooded side ends its connection; hostile bytes leave no goroutine behind after teardown; a catalogue of malformed metadata encodings is injected as invoke-metadata "
+            "packets; handler errors may have cyclic Unwrap chains (an unbounded walk is reported as a panic). The drpchttp entry "
             "points are pure and NOT decided; data races whose only effect is a runtime crash are invisible to a sequentially consistent simulator (stated partial scope).",
             "DESIGN.md §8 C13, §9", "deterministic simulation with byzantine byte/frame injection; panic and memory-bound oracles"),
     "C18": e1("(a) the released v0.0.17 drpcwire reader (vendored verbatim, telemetry removed) is attached as a second consumer to everything either endpoint emits in "
             "every run and must decode the same packets as the reference parser minus control-bit ones; the released gogo-protobuf metadata decoder must accept "
             "emitted UTF-8 metadata; every emitted packet of a kind v0.0.17 does not know must carry the control bit; (c) a renumbering proxy interleaves unknown control packets "
             "(kinds 8-63, 1-2 frames; also one carrying the id of the NEXT stream right after a well-behaved rpc's half-close) into live streams and delivery, completeness, "
-            "error and no-hang oracles must still hold; (b) every 4th chunk of runs feeds byte streams produced by the vendored v0.0.17 Writer/SplitN (ids up to 2^64-1) to the "
-            "current reader under the reader-chunk engine's differential/metamorphic oracles. Full old-endpoint interop is not decided.",
+            "error and no-hang oracles must still hold; the released UnmarshalError must obtain the handler's text and code from every emitted error packet; (b) every 4th chunk of runs feeds byte streams produced by the vendored v0.0.17 Writer/SplitN (ids up to 2^64-1) to the "
+            "current reader under the reader-chunk engine's differential/metamorphic oracles, and packets up to 3 MiB cut by the current SplitData/AppendFrame to the released reader. Full old-endpoint interop is not decided.",
             "DESIGN.md §8 C18, §9", "deterministic simulation; differential check against the released v0.0.17 codec; unknown-control-packet injection"),
 }
 
@@ -87,7 +89,7 @@ CLAIMED["C03"] = other("stream-model",
     "packets emitted (kind, control bit, payload, error payload layout), terminated/finished/context-done signals, and HandlePacket's connection-fatal verdict. Concurrent histories "
     "(2-3 callers + packet feeder, writes parked in a stalled transport) are checked against order-independent rules (idempotence, no send after termination, finished iff terminated and idle, "
     "no write in flight on a finished stream at ANY step, at most one transport write with message frames may begin on a terminated stream per call, valid frame stream, no second terminal packet, "
-    "nothing blocked for ever). 30% of histories use ManualFlush (buffered sends; RawFlush, receives and terminal packets flush; a flush after send-close/termination fails and emits nothing).",
+    "nothing blocked for ever, context done only once finished, half-closed by both sides implies terminated). 30% of histories use ManualFlush (buffered sends; RawFlush, receives and terminal packets flush; a flush after send-close/termination fails and emits nothing).",
     "DESIGN.md §8 C03", "deterministic simulation + model-based testing against a reference state machine",
     "Trusted: the reference state machine in /verif/sim/e2_stream.go; testing/synctest; simsync; sampled histories (all histories of length <= 3 are reached with high probability in the thorough tier, not enumerated).")
 CLAIMED["C09"] = other("reader-chunk",
@@ -102,19 +104,20 @@ CLAIMED["C15"] = other("pool-sim",
     "'expiry fired but not completed' is an ordinary schedulable state. Every step at which nobody holds the pool lock an overlay accessor walks the lists: bounds, count == length, forward == backward, per-key sum == global. "
     "Take results are checked for ownership (cached, not handed out, not pool-closed) and state (not closed / blocked / expiry-fired before Take began); at the end (pool closed, timers drained) every Put connection was handed out or "
     "closed by the pool exactly once. Every 4th chunk of runs uses the pooled family of rpc-sim instead: client scripts call pool.Get(...) whose dial creates real drpcconn connections served by a real drpcserver.Serve "
-    "(bounds at every step, every dialed connection closed after pool close, probe through the pool connection succeeds, double Close does not panic). Found and repaired D5, D11 and D14.",
+    "(bounds at every step, no connection with a stream still in progress is in the cache, the application may close its pool connection mid-run and continue with a fresh one, every dialed connection closed after pool close, probe through the pool connection succeeds, double Close does not panic). Found and repaired D5, D11 and D14.",
     "DESIGN.md §8 C15", "deterministic simulation with fake-clock timer callbacks as schedulable tasks; list-invariant and ownership oracles",
     "Trusted: overlay accessor VerifState (reads private list fields; a rename breaks the build, exit 2); fake connections; synctest fake clock; sampled operation sequences and schedules.")
 CLAIMED["C16"] = other("mux-sim",
     "Real drpcmigrate.ListenMux (prefix length 1-8, routes registered before/while running) over a simulated base listener; 2-6 dialers with registered / unregistered / too-short prefixes writing in arbitrary splits, some through "
     "HeaderConn with 1-3 concurrent writers, some waiting for a one-byte answer before they close; acceptors per listener (some listeners have none); route Close followed by a second Route of the same prefix, context cancel and base-listener failure at scheduler-chosen instants. Oracles at quiescence: each accepted connection is returned by exactly one Accept "
-    "(its route, else default) or closed or still waiting for its prefix; routed bytes = client bytes minus prefix, default bytes unmodified and available as they arrive; a prefix registered again with a fresh listener is honoured; a connection parked at a listener nobody accepts on holds up nothing; header exactly once and first on the wire with correct write counts; after stop no Accept blocks, Run returns and all goroutines exit.",
+    "(its route, else default) or closed or still waiting for its prefix; routed bytes = client bytes minus prefix, default bytes unmodified and available as they arrive; a prefix registered again with a fresh listener is honoured; a connection parked at a listener nobody accepts on holds up nothing; header exactly once and first on the wire with correct write counts and, with one writer, followed byte for byte by the caller's own payload; after stop no Accept blocks, Run returns and all goroutines exit.",
     "DESIGN.md §8 C16", "deterministic simulation with seeded schedules over a simulated listener/connection seam; routing and transparency oracles",
     "Trusted: simnet listener/conn honouring the net contracts (closing a listener resets un-accepted connections); deterministic map iteration patch in the private runtime copy; sampled programs and schedules.")
 CLAIMED["C19"] = other("signal-sim",
     "drpcsignal is instrumented with a scheduling point before EVERY statement; 2-4 tasks run 1-3 operations each on a fresh Signal (Set with distinct errors incl. nil, Get, Err, IsSet, Signal()+probe, Wait) or a fresh Chan "
     "(Make/Get/Close observers; matched Send/Recv/Full). The recorded invoke/return history (stamped with a global event sequence) is checked with porcupine against a sequential write-once register; step invariants: one channel object for all "
-    "callers, closed implies value visible, winning Set returns with the channel closed, no lost wake-up at quiescence, no panic, no task blocked for ever in matched lazy-channel scenarios.",
+    "callers, closed implies value visible, winning Set returns with the channel closed, no lost wake-up at quiescence, no panic, no task blocked for ever in matched lazy-channel scenarios, "
+    "Close of a lazy channel that holds a buffered token closes it.",
     "DESIGN.md §8 C19", "deterministic simulation at statement granularity + porcupine linearizability check",
     "Trusted: porcupine v1.3.0; sequentially consistent interleavings only (no weak-memory reorderings between plain accesses); sampled interleavings (histories are tiny: <= 12 operations).")
 
